@@ -23,7 +23,7 @@ var c04Patterns = []string{"single", "twice", "concurrent3", "race-client", "cle
 func init() {
 	Register(&Prop{ID: "C04",
 		Meta: Meta{Stages: 2, Level: "fault_enumeration",
-			Rule:       "matrix: plugin shutdown behaviour {exits at once; cleanup of 0/100/500/1500ms then exit writing a marker file; ignores the request; frozen by SIGSTOP; already crashed; busy in a call; never connected; failed handshake} x protocol {net/rpc, gRPC, gRPC+mux} x launch {command, custom runner, reattach} x call pattern {Kill; Kill twice; 3 concurrent Kill; Kill racing Client(); CleanupClients over 3 managed clients in mixed states; CleanupClients over 4 running managed clients while two goroutines keep creating further managed clients; for reattach cells also: the launching host and the reattached host, both connected, Kill 0/50/300 ms apart}, plus a SECOND Kill / CleanupClients issued exactly while the first Kill is at statement S, for every go-plugin statement the first Kill passes (profiled in stage 0; plugin exits at once / after 100 or 500 ms of cleanup / never), plus Kill / CleanupClients issued at 7 offsets while another goroutine's Start still waits for the handshake of a plugin that stays silent, writes a bad line late, exits late or serves late, each cell run fault-free and (seeded part) with schedule noise in Client.Kill/Close paths and socket latency; oracle: Kill returns within 60s simulated (+ injected delay), afterwards the process has exited and was reaped and Exited() is true, a plugin that exits <=500ms after the request received no SIGKILL and its cleanup marker exists, one that never exits received SIGKILL, no panic",
+			Rule:       "matrix: plugin shutdown behaviour {exits at once; cleanup of 0/100/500/1500ms then exit writing a marker file; ignores the request; frozen by SIGSTOP; already crashed; busy in a call; never connected; failed handshake} x protocol {net/rpc, gRPC, gRPC+mux} x launch {command, custom runner, reattach} x call pattern {Kill; Kill twice; 3 concurrent Kill; Kill racing Client(); CleanupClients over 3 managed clients in mixed states; CleanupClients over 4 running managed clients while two goroutines keep creating further managed clients; for reattach cells also: the launching host and the reattached host, both connected, Kill 0/50/300 ms apart; reattached plugin that exits promptly, Kill after 6.5 s / 60 s attached, Kill then bounded by 6 s}, plus a SECOND Kill / CleanupClients issued exactly while the first Kill is at statement S, for every go-plugin statement the first Kill passes (profiled in stage 0; plugin exits at once / after 100 or 500 ms of cleanup / never), plus Kill / CleanupClients issued at 7 offsets while another goroutine's Start still waits for the handshake of a plugin that stays silent, writes a bad line late, exits late or serves late, each cell run fault-free and (seeded part) with schedule noise in Client.Kill/Close paths and socket latency; oracle: Kill returns within 60s simulated (+ injected delay), afterwards the process has exited and was reaped and Exited() is true, a plugin that exits <=500ms after the request received no SIGKILL and its cleanup marker exists, one that never exits received SIGKILL, no panic",
 			Exhaustive: "the behaviour x protocol x launch x call-pattern matrix (valid cells)"},
 		Plan: func(tier string, seed uint64, stage int, prev []*h.Result) []*k.Spec {
 			if stage == 1 && tier != "selftest" {
@@ -396,7 +396,13 @@ func runC04(r *h.Run) {
 	// the call pattern
 	const B = 60 * time.Second
 	killOne := func(p *c04Plugin, tag string) h.Outcome {
-		return r.Do("Kill["+p.name+"]"+tag, B+60*time.Second, func() (any, error) { p.cl.Kill(); return nil, nil })
+		bound := B + 60*time.Second
+		if r.Spec.P("dwell", "") != "" {
+			// a plugin that exits at once (or after 100 ms of cleanup) on request:
+			// grace period (2 s) + one poll of the reattached pid (1 s) + slack
+			bound = 6 * time.Second
+		}
+		return r.Do("Kill["+p.name+"]"+tag, bound, func() (any, error) { p.cl.Kill(); return nil, nil })
 	}
 	inj0 := w.InjectedTotal()
 	if d := r.Spec.P("dwell", ""); d != "" {
